@@ -9,8 +9,11 @@ import (
 	"os"
 	"strings"
 	"testing"
+	"time"
 
 	"github.com/volatiletech/authboss/v3"
+	"github.com/volatiletech/authboss/v3/expire"
+	"github.com/volatiletech/authboss/v3/remember"
 	"pgregory.net/rapid"
 )
 
@@ -39,6 +42,7 @@ type c11Case struct {
 	Session  map[string]string `json:"session"`
 	Cookies  map[string]string `json:"cookies"`
 	NoCookie bool              `json:"no_cookie_store,omitempty"`
+	Behind   string            `json:"behind,omitempty"`    // the handler program runs behind one of the library's own middlewares: "remember" (a valid remember cookie is presented, no session user) | "expire"
 	FailOnce string            `json:"fail_once,omitempty"` // "session" | "cookie": that store's first WriteState fails (after taking the events); the handler carries on, e.g. to write an error page
 	Prog     []c11Instr        `json:"prog"`
 	// Chain: the program from index Chain[0] on runs inside event handlers (authboss.Events, the way
@@ -86,6 +90,29 @@ func (s *c11Store) WriteState(w http.ResponseWriter, st authboss.ClientState, ev
 	return nil
 }
 
+// c11Server: the storage the remember middleware needs (one account, its remember tokens).
+type c11Server struct{ tokens map[string]bool }
+type c11User struct{ pid string }
+
+func (u *c11User) GetPID() string  { return u.pid }
+func (u *c11User) PutPID(p string) { u.pid = p }
+func (s *c11Server) Load(_ context.Context, key string) (authboss.User, error) {
+	return &c11User{pid: key}, nil
+}
+func (s *c11Server) Save(context.Context, authboss.User) error { return nil }
+func (s *c11Server) AddRememberToken(_ context.Context, pid, token string) error {
+	s.tokens[pid+"|"+token] = true
+	return nil
+}
+func (s *c11Server) DelRememberTokens(_ context.Context, pid string) error { return nil }
+func (s *c11Server) UseRememberToken(_ context.Context, pid, token string) error {
+	if !s.tokens[pid+"|"+token] {
+		return authboss.ErrTokenNotFound
+	}
+	delete(s.tokens, pid+"|"+token)
+	return nil
+}
+
 type c11Base struct {
 	hdr http.Header
 	log *c11Log
@@ -125,6 +152,23 @@ func c11Run(c c11Case) *Violation {
 	}
 	base := &c11Base{hdr: http.Header{}, log: log}
 	sess.failOnce, cook.failOnce = c.FailOnce == "session", c.FailOnce == "cookie"
+	var outer func(http.Handler) http.Handler
+	switch c.Behind {
+	case "remember":
+		srv := &c11Server{tokens: map[string]bool{}}
+		ab.Config.Storage.Server = srv
+		hash, token, err := remember.GenerateToken("rick@x.io")
+		if err != nil {
+			return nil
+		}
+		srv.tokens["rick@x.io|"+hash] = true
+		delete(sess.state, "uid")
+		cook.state["rm"] = token
+		outer = remember.Middleware(ab)
+	case "expire":
+		ab.Config.Modules.ExpireAfter = time.Hour
+		outer = expire.Middleware(ab)
+	}
 
 	var readProblem string
 	var panicked interface{}
@@ -181,6 +225,9 @@ func c11Run(c c11Case) *Violation {
 					_, _ = lw.Write([]byte(in.Val))
 				}
 			case "read":
+				if c.Behind != "" {
+					break // the library's middleware overlays the request's view of the session (half-auth, hidden expired values)
+				}
 				var got string
 				var ok bool
 				var want string
@@ -238,7 +285,11 @@ func c11Run(c c11Case) *Violation {
 	func() {
 		defer func() { panicked = recover() }()
 		req := httptest.NewRequest("GET", "/x", nil).WithContext(context.Background())
-		ab.LoadClientStateMiddleware(handler).ServeHTTP(base, req)
+		var h http.Handler = handler
+		if outer != nil {
+			h = outer(h)
+		}
+		ab.LoadClientStateMiddleware(h).ServeHTTP(base, req)
 	}()
 	if panicked != nil {
 		return violation("C11", "panic", "handler program panicked: %v", panicked)
@@ -320,12 +371,31 @@ func c11Run(c c11Case) *Violation {
 		}
 	}
 	if firstWrite < 0 {
-		if len(gotS)+len(gotC) > 0 {
+		if len(gotS)+len(gotC) > 0 && c.Behind == "" {
 			return violation("C11", "delivered-without-write", "program never wrote, yet %d deliveries happened", len(gotS)+len(gotC))
 		}
 		return nil
 	}
 	check := func(name string, want []authboss.ClientStateEvent, got [][]authboss.ClientStateEvent) *Violation {
+		if c.Behind != "" {
+			// the middleware in front queued changes of its own first: the program's changes are the tail of the one delivery
+			if len(got) > 1 {
+				return violation("C11", "delivered-twice:"+name+":behind-"+c.Behind, "%s store received %d deliveries", name, len(got))
+			}
+			if len(want) == 0 {
+				return nil
+			}
+			if len(got) == 0 || len(got[0]) < len(want) {
+				return violation("C11", "lost:"+name+":behind-"+c.Behind, "behind the %s middleware, %d %s changes the handler made before its first write were not (all) delivered: got %v", c.Behind, len(want), name, got)
+			}
+			tail := got[0][len(got[0])-len(want):]
+			for i := range want {
+				if tail[i] != want[i] {
+					return violation("C11", "wrong-events:"+name+":behind-"+c.Behind, "behind the %s middleware the %s store's delivery ends with %v, the handler made %v", c.Behind, name, tail, want)
+				}
+			}
+			return nil
+		}
 		if len(want) == 0 {
 			if len(got) != 0 {
 				return violation("C11", "unexpected-delivery:"+name, "%s store received %v although no %s change was made before the first write", name, got, name)
@@ -389,6 +459,8 @@ func c11Gen(t *rapid.T) c11Case {
 	c.NoCookie = rapid.IntRange(0, 19).Draw(t, "nocookie") == 0
 	if f := rapid.IntRange(0, 39).Draw(t, "failonce"); f < 2 {
 		c.FailOnce = []string{"session", "cookie"}[f]
+	} else if f < 8 && !c.NoCookie {
+		c.Behind = []string{"remember", "remember", "expire"}[f%3]
 	}
 	nPre := rapid.IntRange(0, 8).Draw(t, "npre")
 	n := nPre + rapid.IntRange(0, 8).Draw(t, "npost")
